@@ -476,17 +476,33 @@ func (d *driver) observeDir(dir string, sorted bool, docs []doc, known []string)
 				}
 				obs.Err = "fetch: " + e.Error()
 			default:
+				// the same documents through the search path (every document carries k:v0, k:v1 or k:v2)
+				found := map[[2]uint64]bool{}
+				sr, se := c.Call(storectl.Req{Op: "search", Text: "k:v0 or k:v1 or k:v2", Fields: []string{"k"}, From: 0, To: 1 << 40,
+					Limit: len(docs) + 10, WithTotal: true})
+				if se != nil && errors.Is(se, storectl.ErrDied) {
+					fail(se)
+					break
+				}
+				if se != nil {
+					obs.Err = "search: " + se.Error()
+				}
+				for _, id := range sr.IDs {
+					found[id] = true
+				}
 				for i, x := range docs {
 					var got []byte
 					if i < len(fr.DocsHex) {
 						got, _ = hex.DecodeString(fr.DocsHex[i])
 					}
+					hit := found[[2]uint64{x.MID, x.RID}]
 					switch {
-					case len(got) == 0:
+					case len(got) == 0 && !hit && se == nil:
 						obs.Stats[x.Frac].Missing++
-					case bytes.Equal(got, x.Body):
+					case bytes.Equal(got, x.Body) && hit:
 						obs.Stats[x.Frac].OK++
 					default:
+						// wrong bytes, or served by only one of fetch and search
 						obs.Stats[x.Frac].Wrong++
 					}
 				}
